@@ -161,12 +161,14 @@ typedef struct {
 	of_session_t *ses;
 	int configured, released;
 	uint32_t k, r, n, len, m, N1; int32_t seed;
-	int payload;                       /* 0 id, 1 rnd */
+	int payload;                       /* 0 id, 1 rnd, 2 idr (identity replicated over the whole symbol) */
 	int align;
 	unsigned char **raw;               /* n raw blocks (guarded) */
 	unsigned char **cw;                /* n codeword buffers inside raw (application buffers) */
 	unsigned char **orig;              /* n pristine copies */
 	int *have;                         /* cw[i] holds a valid symbol (enc: built) */
+	unsigned char **dupbuf;            /* second buffer with the same content, used when an ESI is submitted again */
+	int *nsub;                         /* how many times ESI i was submitted through decode_with_new_symbol */
 	void **enc_tab;                    /* encoder: table handed to build_repair_symbol */
 	int *enc_libslot;                  /* encoder: slot was allocated by the library */
 	int cbmode;                        /* 0 none,1 buf,2 null,3 mix */
@@ -312,6 +314,7 @@ static int app_ok(dses_t *s)
 		if (!s->cw[i]) continue;
 		if (!guards_ok(s, i)) return 0;
 		if (s->have[i] && memcmp(s->cw[i], s->orig[i], s->len)) return 0;
+		if (s->dupbuf && s->dupbuf[i] && memcmp(s->dupbuf[i], s->orig[i], s->len)) return 0;
 	}
 	return 1;
 }
@@ -358,6 +361,8 @@ static void sess_free_buffers(dses_t *s)
 {
 	if (s->raw) { for (uint32_t i = 0; i < s->n; i++) free(s->raw[i]); free(s->raw); }
 	if (s->orig) { for (uint32_t i = 0; i < s->n; i++) free(s->orig[i]); free(s->orig); }
+	if (s->dupbuf) { for (uint32_t i = 0; i < s->n; i++) free(s->dupbuf[i]); free(s->dupbuf); }
+	free(s->nsub);
 	free(s->cw); free(s->have); free(s->enc_tab); free(s->enc_libslot); free(s->lasttab);
 	for (int i = 0; i < s->npool; i++) free(s->pool[i]);
 	free_H(s->H, s->Hn, s->nH);
@@ -432,7 +437,8 @@ static void cmd_params(int sid, uint32_t k, uint32_t r, uint32_t len, uint32_t m
 	uint64_t seed_before = of_seed;
 	of_status_t st = set_params_raw(s, sid, k, r, len, m, N1, seed);
 	jb_printf("{\"e\":\"SetParams\",\"x\":%ld,\"s\":%d,\"codec\":%d,\"role\":\"%s\",\"k\":%d,\"r\":%d,\"len\":%d,\"m\":%u,\"N1\":%u,\"seed\":%d,\"payload\":\"%s\",\"raw\":%d",
-		  g_exec, sid, s->codec, s->role == 1 ? "enc" : "dec", (int)(k > 0x7FFFFFFF ? -1 : k), (int)(r > 0x7FFFFFFF ? -1 : r), (int)(len > 0x7FFFFFFF ? -1 : len), m, N1, seed, payload ? "rnd" : "id", raw);
+		  g_exec, sid, s->codec, s->role == 1 ? "enc" : "dec", (int)(k > 0x7FFFFFFF ? -1 : k), (int)(r > 0x7FFFFFFF ? -1 : r), (int)(len > 0x7FFFFFFF ? -1 : len), m, N1, seed, payload == 1 ? "rnd" : payload == 2 ? "idr" : "id", raw);
+	jb_printf(",\"npos\":%u", positions(s));
 	jb_printf(",\"kw\":[%u,%u],\"rw\":[%u,%u],\"lw\":[%u,%u]", k >> 16, k & 0xFFFF, r >> 16, r & 0xFFFF, len >> 16, len & 0xFFFF);
 	(void)seed_before;
 	if (st == OF_STATUS_OK && !raw) {
@@ -442,9 +448,11 @@ static void cmd_params(int sid, uint32_t k, uint32_t r, uint32_t len, uint32_t m
 		else if (s->codec == 5) capture_H(((of_2d_parity_cb_t *)s->ses)->pchk_matrix, k, r, &s->H, &s->Hn, &s->nH);
 		/* application buffers */
 		s->raw = calloc(s->n, sizeof(void *)); s->cw = calloc(s->n, sizeof(void *)); s->orig = calloc(s->n, sizeof(void *)); s->have = calloc(s->n, sizeof(int));
+		s->dupbuf = calloc(s->n, sizeof(void *)); s->nsub = calloc(s->n, sizeof(int));
 		for (uint32_t i = 0; i < s->n; i++) { s->cw[i] = alloc_app(s, &s->raw[i]); memset(s->cw[i], 0, len); s->orig[i] = malloc(len ? len : 1); }
 		for (uint32_t i = 0; i < k; i++) {
-			if (payload) for (uint32_t b = 0; b < len; b++) s->cw[i][b] = (unsigned char)rnd32();
+			if (payload == 1) for (uint32_t b = 0; b < len; b++) s->cw[i][b] = (unsigned char)rnd32();
+			else if (payload == 2) { for (unsigned pp = i; pp < positions(s); pp += k) setpos(s, s->cw[i], pp, 1); }
 			else setpos(s, s->cw[i], i, 1);
 			s->have[i] = 1;
 		}
@@ -501,6 +509,7 @@ static const char *origin_of(dses_t *s, void *p, uint32_t i, int *poolidx)
 	*poolidx = -1;
 	if (!p) return "null";
 	if (p == s->cw[i]) return "app";
+	if (s->dupbuf) for (uint32_t j = 0; j < s->n; j++) if (s->dupbuf[j] && p == s->dupbuf[j]) return "appdup";
 	for (uint32_t j = 0; j < s->n; j++) if (p == s->cw[j]) return "appwrong";
 	for (int j = 0; j < s->npool; j++) if (p == s->pool[j]) { *poolidx = j; return s->pool_esi[j] == (int)i ? "cb" : "cbwrong"; }
 	if (led_find(p) >= 0) return "lib";
@@ -602,7 +611,7 @@ static void run_line(char *line)
 		emit_common(NULL, sid, st); jb_printf("}\n"); jb_flush();
 	} else if (!strcmp(op, "params") || !strcmp(op, "rawparams")) {
 		int raw = !strcmp(op, "rawparams");
-		cmd_params(sid, AU(1), AU(2), AU(3), AU(4), AU(5), (int32_t)AI(6), (na > 7 && !strcmp(a[7], "rnd")) ? 1 : 0, (int)AI(8), raw);
+		cmd_params(sid, AU(1), AU(2), AU(3), AU(4), AU(5), (int32_t)AI(6), (na > 7 && !strcmp(a[7], "rnd")) ? 1 : (na > 7 && !strcmp(a[7], "idr")) ? 2 : 0, (int)AI(8), raw);
 	} else if (!strcmp(op, "cb")) {
 		s->cbmode = !strcmp(a[1], "buf") ? 1 : !strcmp(a[1], "null") ? 2 : !strcmp(a[1], "mix") ? 3 : 0;
 		LIB_ENTER(sid);
@@ -626,7 +635,7 @@ static void run_line(char *line)
 			const char *o = !p ? "null" : p == s->cw[esi] ? "app" : led_find(p) >= 0 ? "lib" : "wild";
 			jb_printf(",\"o\":\"%s\"", o);
 			if (p && strcmp(o, "wild")) {
-				if (!s->payload) { jb_printf(",\"v\":"); emit_vec(s, p); }
+				if (s->payload != 1) { jb_printf(",\"v\":"); emit_vec(s, p); }
 				if (!strcmp(o, "lib")) { s->enc_libslot[esi] = 1; led_del(p); }
 				if (!strcmp(o, "app")) { memcpy(s->orig[esi], s->cw[esi], s->len); s->have[esi] = 1; }
 				else { memcpy(s->cw[esi], p, s->len); memcpy(s->orig[esi], p, s->len); s->have[esi] = 1; }
@@ -635,8 +644,17 @@ static void run_line(char *line)
 		emit_common(s, sid, st); jb_printf("}\n"); jb_flush();
 	} else if (!strcmp(op, "recv")) {
 		uint32_t esi = AU(1);
+		void *buf = (s->configured && esi < s->n) ? s->cw[esi] : (void *)s;
+		if (s->configured && esi < s->n && s->role == 2) {
+			/* a duplicate arrives in another buffer (same content), as a retransmitted packet would */
+			if (s->nsub[esi]++ > 0) {
+				if (!s->dupbuf[esi]) { s->dupbuf[esi] = malloc(s->len ? s->len : 1); }
+				memcpy(s->dupbuf[esi], s->orig[esi], s->len);
+				buf = s->dupbuf[esi];
+			}
+		}
 		LIB_ENTER(sid);
-		of_status_t st = of_decode_with_new_symbol(s->ses, (s->configured && esi < s->n) ? s->cw[esi] : (void *)s, esi);
+		of_status_t st = of_decode_with_new_symbol(s->ses, buf, esi);
 		LIB_LEAVE();
 		jb_printf("{\"e\":\"Recv\",\"x\":%ld,\"s\":%d,\"esi\":%u", g_exec, sid, esi);
 		emit_itproj(s);
